@@ -224,3 +224,97 @@ def run_driver(lines: list[str], timeout: float = 600.0) -> list[str]:
     if len(out) != len(lines):
         raise DriverError(f"driver answered {len(out)} lines for {len(lines)} requests ({time.time()-t0:.1f}s)")
     return out
+
+
+# ---------------------------------------------------------------------------------------------
+# parsing canonical text back into generic objects (for --replay and the corpus)
+# ---------------------------------------------------------------------------------------------
+
+def _unhex(s: str) -> str:
+    return bytes.fromhex(s).decode("utf-8")
+
+
+def _take_hex(s: str, i: int) -> tuple[str, int]:
+    j = i
+    while j < len(s) and s[j] in "0123456789abcdef":
+        j += 1
+    return s[i:j], j
+
+
+def _take_opt(s: str, i: int):
+    if s[i] == "-":
+        return None, i + 1
+    assert s[i] == "h", s[i:]
+    h, j = _take_hex(s, i + 1)
+    return _unhex(h), j
+
+
+def parse_term(s: str, i: int = 0):
+    from pyjelly.integrations.generic.generic_sink import IRI, BlankNode, DefaultGraph, Literal, Triple
+
+    c = s[i]
+    if c == "I":
+        h, j = _take_hex(s, i + 1)
+        return IRI(_unhex(h)), j
+    if c == "B":
+        h, j = _take_hex(s, i + 1)
+        return BlankNode(_unhex(h)), j
+    if c == "D":
+        return DefaultGraph, i + 1
+    if c == "U":
+        return UNSUPPORTED, i + 1
+    if c == "L":
+        h, j = _take_hex(s, i + 1)
+        assert s[j] == ":"
+        lang, j = _take_opt(s, j + 1)
+        assert s[j] == ":"
+        dt, j = _take_opt(s, j + 1)
+        return Literal(_unhex(h), lang, dt), j
+    if c == "T":
+        assert s[i + 1] == "("
+        a, j = parse_term(s, i + 2)
+        assert s[j] == ";"
+        b, j = parse_term(s, j + 1)
+        assert s[j] == ";"
+        d, j = parse_term(s, j + 1)
+        assert s[j] == ")"
+        return Triple(a, b, d), j + 1
+    raise ValueError(f"bad term text at {i}: {s[i:i+20]!r}")
+
+
+def parse_stmt(s: str):
+    from pyjelly.integrations.generic.generic_sink import Quad, Triple
+
+    if s == "":
+        return ()
+    terms, i = [], 0
+    while True:
+        t, i = parse_term(s, i)
+        terms.append(t)
+        if i >= len(s):
+            break
+        assert s[i] == ",", s[i:]
+        i += 1
+    if len(terms) == 3:
+        return Triple(*terms)
+    if len(terms) == 4:
+        return Quad(*terms)
+    return tuple(terms)
+
+
+def parse_stmts(s: str):
+    return [] if s == "_" else [parse_stmt(x) for x in s.split("/")]
+
+
+def parse_sink(s: str):
+    from pyjelly.integrations.generic.generic_sink import GenericStatementSink
+
+    idt, ns, st = s.split("~")
+    sink = GenericStatementSink(identifier=parse_term(idt)[0])
+    if ns != "_":
+        for b in ns.split("/"):
+            k, v = b.split("=")
+            sink.bind(_unhex(k), parse_term(v)[0])
+    for x in parse_stmts(st):
+        sink.add(x)
+    return sink
